@@ -98,11 +98,11 @@ macro_rules! write_harness {
     };
 }
 
-// @unit id=io.write.byte props=C07 tier=quick kind=bounded bound="image<=6 bytes, offset<=7; value full" timeout=900 fn=IoInterface::write,IoInterface::read,ensure_len
+// @unit id=io.write.byte props=C07 tier=thorough kind=bounded bound="image<=6 bytes, offset<=7; value full" timeout=900 fn=IoInterface::write,IoInterface::read,ensure_len
 write_harness!(io_write_byte, Byte, Byte, u8, 1);
 // @unit id=io.write.word props=C07 tier=quick kind=bounded bound="image<=6 bytes, offset<=7; value full" timeout=900 fn=IoInterface::write,IoInterface::read,ensure_len
 write_harness!(io_write_word, Word, Word, u16, 2);
-// @unit id=io.write.dword props=C07 tier=quick kind=bounded bound="image<=6 bytes, offset<=7; value full" timeout=900 fn=IoInterface::write,IoInterface::read,ensure_len
+// @unit id=io.write.dword props=C07 tier=thorough kind=bounded bound="image<=6 bytes, offset<=7; value full" timeout=900 fn=IoInterface::write,IoInterface::read,ensure_len
 write_harness!(io_write_dword, DWord, DWord, u32, 4);
 // @unit id=io.write.lword props=C07 tier=thorough kind=bounded bound="image<=6 bytes, offset<=7; value full" timeout=1800 fn=IoInterface::write,IoInterface::read,ensure_len
 write_harness!(io_write_lword, LWord, LWord, u64, 8);
